@@ -350,7 +350,14 @@ func vfC16Run(c vfC16Case, withReq bool) *vfC16Obs {
 		close(started)
 	}
 	atomic.StoreInt32(&stop, 1)
-	wg.Wait()
+	// requesters blocked on the snapshot mutex (the pipeline died while holding it) never come back
+	waited := make(chan struct{})
+	go func() { wg.Wait(); close(waited) }()
+	select {
+	case <-waited:
+	case <-time.After(5 * time.Second):
+		setFail("service requests are blocked for good: the frame loop stopped while holding the snapshot lock")
+	}
 	if s := fail.Load(); s != nil && o.msg == "" {
 		o.msg = s.(string)
 	}
